@@ -118,10 +118,10 @@ def audit(modules):
     rc, out, dt = sh(["lake", "env", "lean", "--run", "Audit.lean"] + modules, cwd=LEAN)
     thms = []
     for l in out.splitlines():
-        m = re.match(r"THEOREM (\S+) (\S+) AXIOMS (\S+)", l)
+        m = re.match(r"THEOREM (\S+) (\S+) AXIOMS (\S+)(?: STMT (\d+))?", l)
         if m:
             ax = [] if m.group(3) == "-" else m.group(3).split(",")
-            thms.append({"module": m.group(1), "name": m.group(2), "axioms": ax})
+            thms.append({"module": m.group(1), "name": m.group(2), "axioms": ax, "stmt": m.group(4)})
     return rc == 0, thms, out
 
 
@@ -271,6 +271,15 @@ def main(argv):
         for need in spec.get("required_theorems", []):
             if thms and need not in {t["name"] for t in thms}:
                 broken.append(("proof", need, "required property theorem is missing from the module"))
+        # the STATEMENT of every required theorem is pinned by a hash of its type (props/hashes/Cxx.json,
+        # refreshed deliberately with devtools/update_hashes.py): a theorem cannot be weakened silently
+        hpath = os.path.join(VERIF, "props", "hashes", pid + ".json")
+        if thms and os.path.exists(hpath):
+            want = json.load(open(hpath))
+            have = {t["name"]: t.get("stmt") for t in thms}
+            for name, h in want.items():
+                if name in have and have[name] is not None and str(have[name]) != str(h):
+                    broken.append(("statement-changed", name, f"the statement of {name} differs from the recorded one (hash {have[name]} != {h}); if intended, run devtools/update_hashes.py {pid}"))
         if tier == "thorough" and not any(b[0] == "proof" for b in broken):
             rc, o, dt = sh(["lake", "env", "leanchecker"] + spec["lean_modules"], cwd=LEAN)
             log(f"leanchecker: rc={rc} ({dt:.1f}s)")
@@ -360,6 +369,7 @@ def main(argv):
         "checker_cmd": f"cd lean && lake build {' '.join(spec['lean_modules'])} && lake env lean --run Audit.lean {' '.join(spec['lean_modules'])}" + (" && lake env leanchecker " + " ".join(spec["lean_modules"]) if tier == "thorough" else ""),
         "trusted_base": BASE_TRUST + spec.get("trusted_base", []),
         "theorems": [{"name": t["name"], "axioms": t["axioms"]} for t in thms],
+        "required_theorems_present": len([n for n in spec.get("required_theorems", []) if n in {t["name"] for t in thms}]),
         "evaluations": int(harness_stats.get("evaluations", 0)),
         "distinct_nontrivial": int(harness_stats.get("distinct_nontrivial", 0)),
         "rule": harness_stats.get("rule", spec.get("rule", "")),
